@@ -1,6 +1,6 @@
 """Field schemas (heap layout) of the repository classes, as far as the contracts need them."""
 from pyvc.contract import schema
-from pyvc.values import TInt, TBool, TStr, TNet, TList, TObj, TOpt, TBV
+from pyvc.values import TInt, TBool, TStr, TNet, TList, TObj, TOpt, TBV, TSet
 
 schema("Base", _platform=TStr)
 schema("AceBase", _sequence=TInt, _type=TStr, _protocol_nr=TBool, _port_nr=TBool)
@@ -14,3 +14,6 @@ schema("Ace", _action=TStr, _protocol=TObj("Protocol"), _srcaddr=TObj("Address")
 schema("Protocol", _number=TInt, _protocol_nr=TBool, _has_port=TBool)
 schema("Option", _line=TStr, _flags=TList(TStr), _logs=TList(TStr))
 schema("AddressBase", _type=TStr, _addrgroup=TStr, _wildcard=TOpt(TObj("Wildcard")), _items=TList(TObj("AddressBase")))
+
+# ghost: the texts that some WARNING record mentions (one global log object); written by logging.warning, read with S.warned(cx, text)
+schema("Log", warned=TSet(TStr))
